@@ -9,47 +9,70 @@ lemmas in `AddrLemmas` / `ListingLemmas`. Every statement is for all byte string
 narrowing (`cInt` = saturate to long, keep the low 32 bits).  Text-to-address conversion (getaddrinfo) is the parameter
 `ipParse`; hypotheses about it are stated where used.
 -/
-import SquidModel.Ftp.AddrLemmas
-import SquidModel.Ftp.ListingLemmas
+import SquidModel.Ftp.QuadLemmas
+import SquidModel.Ftp.ListingNameLemmas
 
 namespace SquidModel.C40
 open SquidModel.Ftp SquidModel.Gen.FtpParsing
 
-/-! ## PORT / PASV: Ftp::ParseIpPort -/
+/-! ## PORT / PASV: Ftp::ParseIpPort
 
-/-- `ipParse` never turns a formatted quad "%d.%d.%d.%d" into an address unless the four numbers are octets, and then it is
-that address (what getaddrinfo(AI_NUMERICHOST) does with canonical dotted quads). -/
+The model is parametrised by the source variant (`PasvFlags`): `legacy` = the pinned code (`%d` into `int`, host fields not
+range-checked), `fixed` = the code with notes/fixes/C40-pasv-component-range.diff (`%ld` into `long`, host fields checked).
+`parseIpPort` is the variant the translator finds in the staged source. Theorems quantified over `fl` hold for whichever
+variant is in the tree; `legacy_*` / `fixed_*` theorems are about the named variant. -/
+
+/-- the staged source is one of the two known variants -/
+theorem current_pasv_variant : PasvFlags.current = PasvFlags.legacy ∨ PasvFlags.current = PasvFlags.fixed := by decide
+
+/-- `ipParse` never turns a formatted quad "%d.%d.%d.%d" of `int`s into an address unless the four numbers are octets, and
+then it is that address (what getaddrinfo(AI_NUMERICHOST) does with canonical dotted quads). -/
 def QuadSound (ipParse : Bytes → Option Nat) : Prop :=
-  ∀ (a b c d : Int) (ip : Nat), ipParse (fmtQuad a b c d) = some ip →
+  ∀ (a b c d : Int), FitsInt a → FitsInt b → FitsInt c → FitsInt d → ∀ ip : Nat, ipParse (fmtQuad a b c d) = some ip →
     0 ≤ a ∧ a ≤ 255 ∧ 0 ≤ b ∧ b ≤ 255 ∧ 0 ≤ c ∧ c ≤ 255 ∧ 0 ≤ d ∧ d ≤ 255 ∧ ip = v4 a.toNat b.toNat c.toNat d.toNat
 
-/-- Holds for every string: an accepted PORT/PASV string has six comma-separated numeric fields; the two port fields,
-narrowed to `int`, are octets; the port is `p1*256+p2` of the narrowed values, lies in 1..65535 (1024..65535 under
-ftp_sanitycheck); the address is the forced one, or the conversion of the four narrowed host fields and not 0.0.0.0/::. -/
-theorem pasv_accept_fields {ipParse : Bytes → Option Nat} {sanity : Bool} {force : Option Bytes} {addr0 : Nat}
-    {buf : Bytes} {ip port : Nat} (h : parseIpPort ipParse sanity force addr0 buf = .ok ip port) :
-    ∃ h1 h2 h3 h4 p1 p2 : Int, lexFields 6 buf = some [h1, h2, h3, h4, p1, p2] ∧
-      0 ≤ cInt p1 ∧ cInt p1 ≤ 255 ∧ 0 ≤ cInt p2 ∧ cInt p2 ≤ 255 ∧
-      (port : Int) = cInt p1 * 256 + cInt p2 ∧ 1 ≤ port ∧ port ≤ 65535 ∧
-      (sanity = true → 1024 ≤ port) ∧
-      (force = none → ip = assignIp ipParse addr0 (fmtQuad (cInt h1) (cInt h2) (cInt h3) (cInt h4)) ∧ isAny ip = false) ∧
-      (∀ f, force = some f → ip = assignIp ipParse addr0 f) :=
-  parseIpPort_ok_inv h
+/-- the assumption is satisfiable: the driver's dotted-quad conversion has it -/
+theorem strictQuad_quadSound : QuadSound strictQuad := by
+  intro a b c d fa fb fc fd ip h
+  rw [strictQuad_fmtQuad a b c d fa fb fc fd] at h
+  split at h
+  · rename_i hr
+    simp only [Option.some.injEq] at h
+    obtain ⟨⟨a1, a2⟩, ⟨b1, b2⟩, ⟨c1, c2⟩, ⟨d1, d2⟩⟩ := hr
+    exact ⟨a1, a2, b1, b2, c1, c2, d1, d2, h.symm⟩
+  · exact absurd h (by simp)
 
-/-- the port of an accepted PORT/PASV string is never 0 and never above 65535, whatever the input -/
-theorem pasv_port_in_range {ipParse : Bytes → Option Nat} {sanity : Bool} {force : Option Bytes} {addr0 : Nat}
-    {buf : Bytes} {ip port : Nat} (h : parseIpPort ipParse sanity force addr0 buf = .ok ip port) :
+/-- Holds for every string and every source variant: an accepted PORT/PASV string has six comma-separated numeric fields;
+the two port fields, converted to the C type, are octets; the port is `p1*256+p2` of the converted values, lies in 1..65535
+(1024..65535 under ftp_sanitycheck); the address is the forced one, or the conversion of the four converted host fields and
+not 0.0.0.0/::. -/
+theorem pasv_accept_fields {fl : PasvFlags} {ipParse : Bytes → Option Nat} {sanity : Bool} {force : Option Bytes} {addr0 : Nat}
+    {buf : Bytes} {ip port : Nat} (h : parseIpPortCore fl ipParse sanity force addr0 buf = .ok ip port) :
+    ∃ h1 h2 h3 h4 p1 p2 : Int, lexFields 6 buf = some [h1, h2, h3, h4, p1, p2] ∧
+      0 ≤ narrow fl.long p1 ∧ narrow fl.long p1 ≤ 255 ∧ 0 ≤ narrow fl.long p2 ∧ narrow fl.long p2 ≤ 255 ∧
+      (port : Int) = narrow fl.long p1 * 256 + narrow fl.long p2 ∧ 1 ≤ port ∧ port ≤ 65535 ∧
+      (sanity = true → 1024 ≤ port) ∧
+      (force = none → ip = assignIp ipParse addr0 (fmtQuad (narrow fl.long h1) (narrow fl.long h2) (narrow fl.long h3) (narrow fl.long h4)) ∧
+        isAny ip = false) ∧
+      (∀ f, force = some f → ip = assignIp ipParse addr0 f) := by
+  obtain ⟨h1, h2, h3, h4, p1, p2, a, b, c, d, e, f, g, i, j, k, l, _⟩ := parseIpPort_ok_inv h
+  exact ⟨h1, h2, h3, h4, p1, p2, a, b, c, d, e, f, g, i, j, k, l⟩
+
+/-- the port of an accepted PORT/PASV string is never 0 and never above 65535, whatever the input and the variant -/
+theorem pasv_port_in_range {fl : PasvFlags} {ipParse : Bytes → Option Nat} {sanity : Bool} {force : Option Bytes} {addr0 : Nat}
+    {buf : Bytes} {ip port : Nat} (h : parseIpPortCore fl ipParse sanity force addr0 buf = .ok ip port) :
     1 ≤ port ∧ port ≤ 65535 ∧ (sanity = true → 1024 ≤ port) := by
   obtain ⟨_, _, _, _, _, _, _, _, _, _, _, _, h1, h2, h3, _⟩ := parseIpPort_ok_inv h
   exact ⟨h1, h2, h3⟩
 
-/- FULL STATEMENT (false of the real code, see the counterexamples below):
-   parseIpPort ipParse sanity none 0 buf = .ok ip port → the six fields *as written* are octets, ip is that quad (≠ 0.0.0.0),
-   port = p1*256+p2 ∈ 1..65535.
-   Proved below with the excluded region as hypothesis: every field as written fits an `int` (no 32-bit wrap), and no forced IP
-   (with a forced IP the host fields are not examined at all). -/
-theorem pasv_address_only_if_in_range_partial {ipParse : Bytes → Option Nat} (hq : QuadSound ipParse) {sanity : Bool}
-    {buf : Bytes} {ip port : Nat} (h : parseIpPort ipParse sanity none 0 buf = .ok ip port) :
+/- FULL STATEMENT (false of the pinned code, see the `legacy_*_counterexample`s; true of the fixed variant, see
+   `fixed_pasv_address_only_if_in_range`):
+   parseIpPort ipParse sanity force 0 buf = .ok ip port → the six fields *as written* are octets, ip is that quad (≠ 0.0.0.0) or
+   the forced address, port = p1*256+p2 ∈ 1..65535.
+   Proved for every variant with the excluded region as hypotheses: every field as written fits an `int` (no 32-bit wrap),
+   and no forced IP (the pinned code does not examine the host fields at all when an IP is forced). -/
+theorem pasv_address_only_if_in_range_partial {fl : PasvFlags} {ipParse : Bytes → Option Nat} (hq : QuadSound ipParse) {sanity : Bool}
+    {buf : Bytes} {ip port : Nat} (h : parseIpPortCore fl ipParse sanity none 0 buf = .ok ip port) :
     ∃ h1 h2 h3 h4 p1 p2 : Int, lexFields 6 buf = some [h1, h2, h3, h4, p1, p2] ∧
       (FitsInt h1 → FitsInt h2 → FitsInt h3 → FitsInt h4 → FitsInt p1 → FitsInt p2 →
         0 ≤ h1 ∧ h1 ≤ 255 ∧ 0 ≤ h2 ∧ h2 ≤ 255 ∧ 0 ≤ h3 ∧ h3 ≤ 255 ∧ 0 ≤ h4 ∧ h4 ≤ 255 ∧
@@ -59,10 +82,10 @@ theorem pasv_address_only_if_in_range_partial {ipParse : Bytes → Option Nat} (
   obtain ⟨h1, h2, h3, h4, p1, p2, hw, c1, c2, c3, c4, hp, hp1, hp2, hs, hf, _⟩ := parseIpPort_ok_inv h
   refine ⟨h1, h2, h3, h4, p1, p2, hw, ?_⟩
   intro f1 f2 f3 f4 f5 f6
-  rw [cInt_of_fits f5] at c1 c2 hp
-  rw [cInt_of_fits f6] at c3 c4 hp
+  rw [narrow_of_fits _ f5] at c1 c2 hp
+  rw [narrow_of_fits _ f6] at c3 c4 hp
   obtain ⟨hip, hany⟩ := hf rfl
-  rw [cInt_of_fits f1, cInt_of_fits f2, cInt_of_fits f3, cInt_of_fits f4] at hip
+  rw [narrow_of_fits _ f1, narrow_of_fits _ f2, narrow_of_fits _ f3, narrow_of_fits _ f4] at hip
   -- the conversion succeeded, otherwise the address would still be the unspecified one
   cases hc : ipParse (fmtQuad h1 h2 h3 h4) with
   | none =>
@@ -72,39 +95,99 @@ theorem pasv_address_only_if_in_range_partial {ipParse : Bytes → Option Nat} (
   | some a =>
     simp only [assignIp, hc, Option.getD_some] at hip
     subst hip
-    obtain ⟨q1, q2, q3, q4, q5, q6, q7, q8, q9⟩ := hq h1 h2 h3 h4 ip hc
+    obtain ⟨q1, q2, q3, q4, q5, q6, q7, q8, q9⟩ := hq h1 h2 h3 h4 f1 f2 f3 f4 ip hc
     exact ⟨q1, q2, q3, q4, q5, q6, q7, q8, c1, c2, c3, c4, q9, hany, hp, hp1, hp2, hs⟩
 
-/-- COUNTEREXAMPLE (32-bit wrap of `%d`): "4294967297,2,3,4,5,6" yields 1.2.3.4:1286 although the first field is 2^32+1. -/
-theorem pasv_wrap_counterexample :
-    parseIpPort strictQuad false none 0 [52, 50, 57, 52, 57, 54, 55, 50, 57, 55, 44, 50, 44, 51, 44, 52, 44, 53, 44, 54] = .ok (v4 1 2 3 4) 1286 := by decide +kernel
+/-- a `long` conversion that lands in 0..255 is the number as written -/
+theorem long_octet {v : Int} (h0 : 0 ≤ narrow true v) (h1 : narrow true v ≤ 255) : narrow true v = v ∧ 0 ≤ v ∧ v ≤ 255 := by
+  have e : narrow true v = clampLong v := by simp [narrow]
+  rw [e] at h0 h1 ⊢
+  have := clampLong_inner (v := v) (by omega) (by omega)
+  rw [this] at h0 h1
+  exact ⟨this, h0, h1⟩
 
-/-- COUNTEREXAMPLE (wrap in a port field): "1,2,3,4,4294967301,6" yields port 5*256+6. -/
-theorem pasv_port_wrap_counterexample :
-    parseIpPort strictQuad false none 0 [49, 44, 50, 44, 51, 44, 52, 44, 52, 50, 57, 52, 57, 54, 55, 51, 48, 49, 44, 54] = .ok (v4 1 2 3 4) 1286 := by decide +kernel
+/-- FULL STATEMENT, for the fixed variant (notes/fixes/C40-pasv-component-range.diff): an accepted string has six fields
+that *as written* are octets — with or without a forced IP —, the port is p1*256+p2 of the fields as written and lies in
+1..65535 (≥ 1024 under ftp_sanitycheck), and without a forced IP the address is exactly that non-zero quad. -/
+theorem fixed_pasv_address_only_if_in_range {ipParse : Bytes → Option Nat} (hq : QuadSound ipParse) {sanity : Bool}
+    {force : Option Bytes} {buf : Bytes} {ip port : Nat}
+    (h : parseIpPortCore PasvFlags.fixed ipParse sanity force 0 buf = .ok ip port) :
+    ∃ h1 h2 h3 h4 p1 p2 : Int, lexFields 6 buf = some [h1, h2, h3, h4, p1, p2] ∧
+      0 ≤ h1 ∧ h1 ≤ 255 ∧ 0 ≤ h2 ∧ h2 ≤ 255 ∧ 0 ≤ h3 ∧ h3 ≤ 255 ∧ 0 ≤ h4 ∧ h4 ≤ 255 ∧
+      0 ≤ p1 ∧ p1 ≤ 255 ∧ 0 ≤ p2 ∧ p2 ≤ 255 ∧
+      (port : Int) = p1 * 256 + p2 ∧ 1 ≤ port ∧ port ≤ 65535 ∧ (sanity = true → 1024 ≤ port) ∧
+      (force = none → ip = v4 h1.toNat h2.toNat h3.toNat h4.toNat ∧ isAny ip = false) ∧
+      (∀ f, force = some f → ip = assignIp ipParse 0 f) := by
+  obtain ⟨h1, h2, h3, h4, p1, p2, hw, c1, c2, c3, c4, hp, hp1, hp2, hs, hf, hforce, hhost⟩ := parseIpPort_ok_inv h
+  obtain ⟨⟨a1, a2⟩, ⟨b1, b2⟩, ⟨g1, g2⟩, ⟨d1, d2⟩⟩ := hhost rfl
+  simp only [PasvFlags.fixed] at c1 c2 c3 c4 hp hf a1 a2 b1 b2 g1 g2 d1 d2
+  obtain ⟨e1, x1, x2⟩ := long_octet a1 a2
+  obtain ⟨e2, x3, x4⟩ := long_octet b1 b2
+  obtain ⟨e3, x5, x6⟩ := long_octet g1 g2
+  obtain ⟨e4, x7, x8⟩ := long_octet d1 d2
+  obtain ⟨e5, y1, y2⟩ := long_octet c1 c2
+  obtain ⟨e6, y3, y4⟩ := long_octet c3 c4
+  rw [e5, e6] at hp
+  rw [e1, e2, e3, e4] at hf
+  refine ⟨h1, h2, h3, h4, p1, p2, hw, x1, x2, x3, x4, x5, x6, x7, x8, y1, y2, y3, y4, hp, hp1, hp2, hs, ?_, hforce⟩
+  intro hn
+  obtain ⟨hip, hany⟩ := hf hn
+  have f1 : FitsInt h1 := by unfold FitsInt; omega
+  have f2 : FitsInt h2 := by unfold FitsInt; omega
+  have f3 : FitsInt h3 := by unfold FitsInt; omega
+  have f4 : FitsInt h4 := by unfold FitsInt; omega
+  cases hc : ipParse (fmtQuad h1 h2 h3 h4) with
+  | none =>
+    simp only [assignIp, hc, Option.getD_none] at hip
+    subst hip
+    exact absurd hany (by decide)
+  | some a =>
+    simp only [assignIp, hc, Option.getD_some] at hip
+    subst hip
+    obtain ⟨_, _, _, _, _, _, _, _, q9⟩ := hq h1 h2 h3 h4 f1 f2 f3 f4 ip hc
+    exact ⟨q9, hany⟩
 
-/-- COUNTEREXAMPLE (forced IP, the default `ftp_sanitycheck on` situation of the PASV reply): the host fields are not
-examined at all — "999,999,999,999,4,0" yields the forced address. -/
-theorem pasv_forced_ip_counterexample (ipParse : Bytes → Option Nat) (f : Bytes) :
-    parseIpPort ipParse true (some f) 0 [57, 57, 57, 44, 57, 57, 57, 44, 57, 57, 57, 44, 57, 57, 57, 44, 52, 44, 48] = .ok (assignIp ipParse 0 f) 1024 := by
-  have : scan6 [57, 57, 57, 44, 57, 57, 57, 44, 57, 57, 57, 44, 57, 57, 57, 44, 52, 44, 48] = some [999, 999, 999, 999, 4, 0] := by decide +kernel
-  simp [parseIpPort, this, pasvAddr, pasvPort, pasvOctetMax, pasvSanityMinPort]
+/-- COUNTEREXAMPLE, pinned code (32-bit wrap of `%d`): "4294967297,2,3,4,5,6" yields 1.2.3.4:1286 although the first field
+is 2^32+1; the fixed variant rejects it. -/
+theorem legacy_pasv_wrap_counterexample :
+    parseIpPortCore PasvFlags.legacy strictQuad false none 0 [52, 50, 57, 52, 57, 54, 55, 50, 57, 55, 44, 50, 44, 51, 44, 52, 44, 53, 44, 54] = .ok (v4 1 2 3 4) 1286 := by decide +kernel
+theorem fixed_pasv_wrap_rejected :
+    parseIpPortCore PasvFlags.fixed strictQuad false none 0 [52, 50, 57, 52, 57, 54, 55, 50, 57, 55, 44, 50, 44, 51, 44, 52, 44, 53, 44, 54] = .reject := by decide +kernel
 
-/-- COUNTEREXAMPLES (lax syntax, outside the `_partial` theorem's claim: the values are in range, the spelling is not
-RFC 959): trailing text, white space and signs are accepted. -/
+/-- COUNTEREXAMPLE, pinned code (wrap in a port field): "1,2,3,4,4294967301,6" yields port 5*256+6. -/
+theorem legacy_pasv_port_wrap_counterexample :
+    parseIpPortCore PasvFlags.legacy strictQuad false none 0 [49, 44, 50, 44, 51, 44, 52, 44, 52, 50, 57, 52, 57, 54, 55, 51, 48, 49, 44, 54] = .ok (v4 1 2 3 4) 1286 := by decide +kernel
+theorem fixed_pasv_port_wrap_rejected :
+    parseIpPortCore PasvFlags.fixed strictQuad false none 0 [49, 44, 50, 44, 51, 44, 52, 44, 52, 50, 57, 52, 57, 54, 55, 51, 48, 49, 44, 54] = .reject := by decide +kernel
+
+/-- COUNTEREXAMPLE, pinned code (forced IP, the default `ftp_sanitycheck on` situation of the PASV reply): the host fields
+are not examined at all — "999,999,999,999,4,0" yields the forced address; the fixed variant rejects it. -/
+theorem legacy_pasv_forced_ip_counterexample (ipParse : Bytes → Option Nat) (f : Bytes) :
+    parseIpPortCore PasvFlags.legacy ipParse true (some f) 0 [57, 57, 57, 44, 57, 57, 57, 44, 57, 57, 57, 44, 57, 57, 57, 44, 52, 44, 48] = .ok (assignIp ipParse 0 f) 1024 := by
+  have : scan6 false [57, 57, 57, 44, 57, 57, 57, 44, 57, 57, 57, 44, 57, 57, 57, 44, 52, 44, 48] = some [999, 999, 999, 999, 4, 0] := by decide +kernel
+  simp [parseIpPortCore, PasvFlags.legacy, this, pasvAddr, pasvPort, pasvOctetMax, pasvSanityMinPort]
+theorem fixed_pasv_forced_ip_rejected (ipParse : Bytes → Option Nat) (f : Bytes) :
+    parseIpPortCore PasvFlags.fixed ipParse true (some f) 0 [57, 57, 57, 44, 57, 57, 57, 44, 57, 57, 57, 44, 57, 57, 57, 44, 52, 44, 48] = .reject := by
+  have : scan6 true [57, 57, 57, 44, 57, 57, 57, 44, 57, 57, 57, 44, 57, 57, 57, 44, 52, 44, 48] = some [999, 999, 999, 999, 4, 0] := by decide +kernel
+  simp [parseIpPortCore, PasvFlags.fixed, this, pasvOctetMax]
+
+/-- COUNTEREXAMPLES (lax syntax, both variants; outside the range theorems' claim: the values are in range, the spelling is
+not RFC 959): trailing text, white space and signs are accepted. -/
 theorem pasv_trailing_garbage_counterexample :
-    parseIpPort strictQuad false none 0 [49, 44, 50, 44, 51, 44, 52, 44, 53, 44, 54, 106, 117, 110, 107] = .ok (v4 1 2 3 4) 1286 := by decide +kernel
+    parseIpPortCore PasvFlags.legacy strictQuad false none 0 [49, 44, 50, 44, 51, 44, 52, 44, 53, 44, 54, 106, 117, 110, 107] = .ok (v4 1 2 3 4) 1286 ∧
+    parseIpPortCore PasvFlags.fixed strictQuad false none 0 [49, 44, 50, 44, 51, 44, 52, 44, 53, 44, 54, 106, 117, 110, 107] = .ok (v4 1 2 3 4) 1286 := by decide +kernel
 theorem pasv_space_sign_counterexample :
-    parseIpPort strictQuad false none 0 [32, 43, 49, 44, 32, 50, 44, 51, 44, 52, 44, 53, 44, 54] = .ok (v4 1 2 3 4) 1286 := by decide +kernel
+    parseIpPortCore PasvFlags.legacy strictQuad false none 0 [32, 43, 49, 44, 32, 50, 44, 51, 44, 52, 44, 53, 44, 54] = .ok (v4 1 2 3 4) 1286 ∧
+    parseIpPortCore PasvFlags.fixed strictQuad false none 0 [32, 43, 49, 44, 32, 50, 44, 51, 44, 52, 44, 53, 44, 54] = .ok (v4 1 2 3 4) 1286 := by decide +kernel
 
-/-- LATENT: when `addr` already holds an address, a string whose host fields do not convert is accepted with that stale
-address ("256,2,3,4,4,0" with addr = 9.9.9.9). Every caller passes a default-constructed address (`addr0 = 0`). -/
-theorem pasv_stale_address_counterexample :
-    parseIpPort strictQuad false none (v4 9 9 9 9) [50, 53, 54, 44, 50, 44, 51, 44, 52, 44, 52, 44, 48] = .ok (v4 9 9 9 9) 1024 := by decide +kernel
+/-- LATENT, pinned code: when `addr` already holds an address, a string whose host fields do not convert is accepted with
+that stale address ("256,2,3,4,4,0" with addr = 9.9.9.9). Every caller passes a default-constructed address (`addr0 = 0`). -/
+theorem legacy_pasv_stale_address_counterexample :
+    parseIpPortCore PasvFlags.legacy strictQuad false none (v4 9 9 9 9) [50, 53, 54, 44, 50, 44, 51, 44, 52, 44, 52, 44, 48] = .ok (v4 9 9 9 9) 1024 := by decide +kernel
 
-/-- Strictly written strings are accepted with exactly their values: six digit strings with octet values, a non-zero host,
-a port ≥ 1 (≥ 1024 under ftp_sanitycheck), followed by anything that does not start with a digit. -/
-theorem pasv_accepts_strict (ipParse : Bytes → Option Nat) (sanity : Bool) (d1 d2 d3 d4 d5 d6 tail : Bytes)
+/-- Strictly written strings are accepted with exactly their values by either variant: six digit strings with octet values,
+a non-zero host, a port ≥ 1 (≥ 1024 under ftp_sanitycheck), followed by anything that does not start with a digit. -/
+theorem pasv_accepts_strict (fl : PasvFlags) (ipParse : Bytes → Option Nat) (sanity : Bool) (d1 d2 d3 d4 d5 d6 tail : Bytes)
     (i1 : IsDec d1) (i2 : IsDec d2) (i3 : IsDec d3) (i4 : IsDec d4) (i5 : IsDec d5) (i6 : IsDec d6)
     (v1 : decNat d1 ≤ 255) (v2 : decNat d2 ≤ 255) (v3 : decNat d3 ≤ 255) (v4' : decNat d4 ≤ 255)
     (v5 : decNat d5 ≤ 255) (v6 : decNat d6 ≤ 255) (ht : NoDigitAhead tail)
@@ -112,7 +195,7 @@ theorem pasv_accepts_strict (ipParse : Bytes → Option Nat) (sanity : Bool) (d1
           some (v4 (decNat d1) (decNat d2) (decNat d3) (decNat d4)))
     (hnz : decNat d1 + decNat d2 + decNat d3 + decNat d4 ≠ 0)
     (hport : 1 ≤ decNat d5 * 256 + decNat d6) (hsan : sanity = true → 1024 ≤ decNat d5 * 256 + decNat d6) :
-    parseIpPort ipParse sanity none 0
+    parseIpPortCore fl ipParse sanity none 0
       (d1 ++ 44 :: (d2 ++ 44 :: (d3 ++ 44 :: (d4 ++ 44 :: (d5 ++ 44 :: (d6 ++ tail)))))) =
       .ok (v4 (decNat d1) (decNat d2) (decNat d3) (decNat d4)) (decNat d5 * 256 + decNat d6) := by
   have nd : ∀ r : Bytes, NoDigitAhead (44 :: r) := by
@@ -123,15 +206,18 @@ theorem pasv_accepts_strict (ipParse : Bytes → Option Nat) (sanity : Bool) (d1
       some [(decNat d1 : Int), decNat d2, decNat d3, decNat d4, decNat d5, decNat d6] := by
     simp only [lexFields, lexInt_dec i1 _ (nd _), lexInt_dec i2 _ (nd _), lexInt_dec i3 _ (nd _), lexInt_dec i4 _ (nd _),
       lexInt_dec i5 _ (nd _), lexInt_dec i6 _ ht, Option.map_some]
-  have fits : ∀ n : Nat, n ≤ 255 → cInt (n : Int) = (n : Int) := by
-    intro n hn; apply cInt_of_fits; unfold FitsInt; omega
+  have fits : ∀ n : Nat, n ≤ 255 → narrow fl.long (n : Int) = (n : Int) := by
+    intro n hn; apply narrow_of_fits; unfold FitsInt; omega
   have hany : isAny (v4 (decNat d1) (decNat d2) (decNat d3) (decNat d4)) = false := by
     simp only [isAny, v4, Bool.or_eq_false_iff, beq_eq_false_iff_ne, ne_eq]
     omega
-  simp only [parseIpPort, scan6, hl, Option.map_some, List.map_cons, List.map_nil, fits _ v1, fits _ v2, fits _ v3,
+  simp only [parseIpPortCore, scan6, hl, Option.map_some, List.map_cons, List.map_nil, fits _ v1, fits _ v2, fits _ v3,
     fits _ v4', fits _ v5, fits _ v6, pasvAddr, assignIp, hq, Option.getD_some, hany, pasvPort, pasvOctetMax,
     pasvSanityMinPort]
   have g1 : ¬ ((decNat d5 : Int) < 0 ∨ (decNat d6 : Int) < 0 ∨ (decNat d5 : Int) > 255 ∨ (decNat d6 : Int) > 255) := by omega
+  have g0 : ¬ (fl.hostChecked = true ∧ ((decNat d1 : Int) < 0 ∨ (decNat d2 : Int) < 0 ∨ (decNat d3 : Int) < 0 ∨ (decNat d4 : Int) < 0 ∨
+      (decNat d1 : Int) > 255 ∨ (decNat d2 : Int) > 255 ∨ (decNat d3 : Int) > 255 ∨ (decNat d4 : Int) > 255)) := by
+    intro ⟨_, hh⟩; omega
   have g2 : ¬ ((decNat d5 : Int) * 256 + (decNat d6 : Int) ≤ 0) := by omega
   have g3 : ¬ (sanity = true ∧ (decNat d5 : Int) * 256 + (decNat d6 : Int) < 1024) := by
     intro ⟨hs, hlt⟩
@@ -140,33 +226,42 @@ theorem pasv_accepts_strict (ipParse : Bytes → Option Nat) (sanity : Bool) (d1
   have g4 : ((decNat d5 : Int) * 256 + (decNat d6 : Int)).toNat % 65536 = decNat d5 * 256 + decNat d6 := by
     have : ((decNat d5 : Int) * 256 + (decNat d6 : Int)).toNat = decNat d5 * 256 + decNat d6 := by omega
     rw [this]; apply Nat.mod_eq_of_lt; omega
-  simp only [g1, g2, g3, g4, ↓reduceIte, Bool.false_eq_true]
+  simp only [g0, g1, g2, g3, g4, ↓reduceIte, Bool.false_eq_true]
 
-/-! ## EPRT: Ftp::ParseProtoIpPort -/
+/-! ## EPRT: Ftp::ParseProtoIpPort
 
-/-- Holds for every string: an accepted EPRT string decomposes (the way the C code walks it) into a protocol number, an
-address text shorter than MAX_IPSTRLEN and a port field; the protocol number narrowed to `int` is 1 or 2 and agrees with
-the family of the address; the address is not unspecified; the yielded port is the narrowed port value modulo 65536. -/
-theorem eprt_accept_fields {ipParse : Bytes → Option Nat} {sanity : Bool} {addr0 : Nat} {buf : Bytes} {ip port : Nat}
-    (h : parseProtoIpPort ipParse sanity addr0 buf = .ok ip port) :
-    ∃ pw ipTxt po, eprtAsWritten buf = some (pw, ipTxt, po) ∧ (cInt pw = 1 ∨ cInt pw = 2) ∧
+Variants (`EprtFlags`): `legacy` = the pinned code (`const int proto/port = strtol(...)`, only `port < 0` rejected), `fixed` = the
+code with notes/fixes/C40-eprt-number-range.diff (`const long`, `port <= 0 || port > 65535` rejected). -/
+
+theorem current_eprt_variant : EprtFlags.current = EprtFlags.legacy ∨ EprtFlags.current = EprtFlags.fixed := by decide
+
+/-- Holds for every string and every variant: an accepted EPRT string decomposes (the way the C code walks it) into a
+protocol number, an address text shorter than MAX_IPSTRLEN and a port field; the protocol number converted to the C type is
+1 or 2 and agrees with the family of the address; the address is not unspecified; the yielded port is the converted port
+value modulo 65536, which respects the variant's bounds. -/
+theorem eprt_accept_fields {fl : EprtFlags} {ipParse : Bytes → Option Nat} {sanity : Bool} {addr0 : Nat} {buf : Bytes} {ip port : Nat}
+    (h : parseProtoIpPortCore fl ipParse sanity addr0 buf = .ok ip port) :
+    ∃ pw ipTxt po, eprtAsWritten buf = some (pw, ipTxt, po) ∧ (narrow fl.long pw = 1 ∨ narrow fl.long pw = 2) ∧
       ipTxt.length < maxIpStrLen ∧ ip = assignIp ipParse addr0 ipTxt ∧ isAny ip = false ∧
-      ((cInt pw = 2) ↔ isV4 ip = false) ∧ 0 ≤ eprtPortInt po ∧ (sanity = true → 1024 ≤ eprtPortInt po) ∧
-      port = (eprtPortInt po).toNat % 65536 :=
+      ((narrow fl.long pw = 2) ↔ isV4 ip = false) ∧ fl.portMin ≤ eprtPortC fl.long po ∧
+      (0 ≤ fl.portMax → eprtPortC fl.long po ≤ fl.portMax) ∧ (sanity = true → 1024 ≤ eprtPortC fl.long po) ∧
+      port = (eprtPortC fl.long po).toNat % 65536 :=
   parseProtoIpPort_ok_inv h
 
-/- FULL STATEMENT (false of the real code, see the counterexamples below):
+/- FULL STATEMENT (false of the pinned code, see the `legacy_*_counterexample`s; true of the fixed variant, see
+   `fixed_eprt_address_only_if_in_range`):
    parseProtoIpPort ipParse sanity 0 buf = .ok ip port → protocol as written ∈ {1,2}, the address text converts to ip (not
    unspecified, family = protocol), the port as written is in 1..65535 and is the yielded port.
-   Proved below with the excluded region as hypotheses: the protocol number as written fits an `int`, and the port field as
-   written is a number in 1..65535 (the code itself rejects only negative `int` ports and never looks at the upper end). -/
-theorem eprt_address_only_if_in_range_partial {ipParse : Bytes → Option Nat} {sanity : Bool} {buf : Bytes} {ip port : Nat}
-    (h : parseProtoIpPort ipParse sanity 0 buf = .ok ip port) :
+   Proved for every variant whose port lower bound is 0 or 1, with the excluded region as hypotheses: the protocol number as
+   written fits an `int`, and the port field as written is a number in 1..65535 (the pinned code rejects only negative `int`
+   ports and never looks at the upper end). -/
+theorem eprt_address_only_if_in_range_partial {fl : EprtFlags} {ipParse : Bytes → Option Nat} {sanity : Bool} {buf : Bytes} {ip port : Nat}
+    (h : parseProtoIpPortCore fl ipParse sanity 0 buf = .ok ip port) :
     ∃ pw ipTxt po, eprtAsWritten buf = some (pw, ipTxt, po) ∧
       ipParse ipTxt = some ip ∧ isAny ip = false ∧ ipTxt.length < maxIpStrLen ∧
       (FitsInt pw → (pw = 1 ∨ pw = 2) ∧ ((pw = 2) ↔ isV4 ip = false)) ∧
       (∀ pv, po = some pv → 1 ≤ pv → pv ≤ 65535 → (port : Int) = pv ∧ (sanity = true → 1024 ≤ port)) := by
-  obtain ⟨pw, ipTxt, po, hw, hproto, hlen, hip, hany, hfam, hp0, hsan, hport⟩ := parseProtoIpPort_ok_inv h
+  obtain ⟨pw, ipTxt, po, hw, hproto, hlen, hip, hany, hfam, _, _, hsan, hport⟩ := parseProtoIpPort_ok_inv h
   refine ⟨pw, ipTxt, po, hw, ?_, hany, hlen, ?_, ?_⟩
   · cases hc : ipParse ipTxt with
     | none =>
@@ -177,12 +272,12 @@ theorem eprt_address_only_if_in_range_partial {ipParse : Bytes → Option Nat} {
       simp only [assignIp, hc, Option.getD_some] at hip
       rw [hip]
   · intro hf
-    rw [cInt_of_fits hf] at hproto hfam
+    rw [narrow_of_fits _ hf] at hproto hfam
     exact ⟨hproto, hfam⟩
   · intro pv hpo h1 h2
     subst hpo
     have hf : FitsInt pv := by unfold FitsInt; omega
-    simp only [eprtPortInt, cInt_of_fits hf] at hport hsan
+    simp only [eprtPortC, narrow_of_fits _ hf] at hport hsan
     have hm : pv.toNat % 65536 = pv.toNat := by apply Nat.mod_eq_of_lt; omega
     rw [hm] at hport
     refine ⟨by omega, ?_⟩
@@ -190,34 +285,88 @@ theorem eprt_address_only_if_in_range_partial {ipParse : Bytes → Option Nat} {
     have := hsan hs
     omega
 
-/-- COUNTEREXAMPLES (port range): "|1|1.2.3.4|70000|" yields port 4464, "|1|1.2.3.4|65536|" and "|1|1.2.3.4|0|" and an empty
-port field yield port 0, and under ftp_sanitycheck "|1|1.2.3.4|4294968320|" yields port 1024. -/
-theorem eprt_port_70000_counterexample :
-    parseProtoIpPort strictQuad false 0 [124, 49, 124, 49, 46, 50, 46, 51, 46, 52, 124, 55, 48, 48, 48, 48, 124] = .ok (v4 1 2 3 4) 4464 := by decide +kernel
-theorem eprt_port_65536_counterexample :
-    parseProtoIpPort strictQuad false 0 [124, 49, 124, 49, 46, 50, 46, 51, 46, 52, 124, 54, 53, 53, 51, 54, 124] = .ok (v4 1 2 3 4) 0 := by decide +kernel
-theorem eprt_port_zero_counterexample :
-    parseProtoIpPort strictQuad false 0 [124, 49, 124, 49, 46, 50, 46, 51, 46, 52, 124, 48, 124] = .ok (v4 1 2 3 4) 0 := by decide +kernel
-theorem eprt_port_empty_counterexample :
-    parseProtoIpPort strictQuad false 0 [124, 49, 124, 49, 46, 50, 46, 51, 46, 52, 124, 124] = .ok (v4 1 2 3 4) 0 := by decide +kernel
-theorem eprt_port_wrap_sanity_counterexample :
-    parseProtoIpPort strictQuad true 0 [124, 49, 124, 49, 46, 50, 46, 51, 46, 52, 124, 52, 50, 57, 52, 57, 54, 56, 51, 50, 48, 124] = .ok (v4 1 2 3 4) 1024 := by decide +kernel
-/-- COUNTEREXAMPLE (protocol number wrap): "|4294967297|1.2.3.4|5000|" is taken as protocol 1. -/
-theorem eprt_proto_wrap_counterexample :
-    parseProtoIpPort strictQuad false 0 [124, 52, 50, 57, 52, 57, 54, 55, 50, 57, 55, 124, 49, 46, 50, 46, 51, 46, 52, 124, 53, 48, 48, 48, 124] = .ok (v4 1 2 3 4) 5000 := by decide +kernel
-/-- COUNTEREXAMPLES (lax syntax): the final delimiter is compared with '|' instead of the string's delimiter, and text after
-it is ignored. -/
-theorem eprt_mixed_delimiter_counterexample :
-    parseProtoIpPort strictQuad false 0 [35, 49, 35, 49, 46, 50, 46, 51, 46, 52, 35, 53, 48, 48, 48, 124] = .ok (v4 1 2 3 4) 5000 := by decide +kernel
-theorem eprt_trailing_garbage_counterexample :
-    parseProtoIpPort strictQuad false 0 [124, 49, 124, 49, 46, 50, 46, 51, 46, 52, 124, 53, 48, 48, 48, 124, 106, 117, 110, 107] = .ok (v4 1 2 3 4) 5000 := by decide +kernel
+/-- FULL STATEMENT, for the fixed variant (notes/fixes/C40-eprt-number-range.diff): an accepted EPRT string has a protocol
+number that *as written* is 1 or 2 and matches the address family, an address text that converts to the yielded,
+not unspecified address, and a port field that *as written* is a number in 1..65535 (≥ 1024 under ftp_sanitycheck) and is
+the yielded port. -/
+theorem fixed_eprt_address_only_if_in_range {ipParse : Bytes → Option Nat} {sanity : Bool} {buf : Bytes} {ip port : Nat}
+    (h : parseProtoIpPortCore EprtFlags.fixed ipParse sanity 0 buf = .ok ip port) :
+    ∃ pw ipTxt pv, eprtAsWritten buf = some (pw, ipTxt, some pv) ∧ (pw = 1 ∨ pw = 2) ∧ ((pw = 2) ↔ isV4 ip = false) ∧
+      ipParse ipTxt = some ip ∧ isAny ip = false ∧ ipTxt.length < maxIpStrLen ∧
+      1 ≤ pv ∧ pv ≤ 65535 ∧ (port : Int) = pv ∧ (sanity = true → 1024 ≤ port) := by
+  obtain ⟨pw, ipTxt, po, hw, hproto, hlen, hip, hany, hfam, hmin, hmax, hsan, hport⟩ := parseProtoIpPort_ok_inv h
+  simp only [EprtFlags.fixed] at hproto hfam hmin hmax hsan hport
+  have hmax' := hmax (by decide)
+  have epw : narrow true pw = pw := by
+    have e : narrow true pw = clampLong pw := by simp [narrow]
+    rw [e] at hproto ⊢
+    exact clampLong_inner (by rcases hproto with h | h <;> omega) (by rcases hproto with h | h <;> omega)
+  rw [epw] at hproto hfam
+  cases po with
+  | none =>
+    simp only [eprtPortC] at hmin
+    exact absurd hmin (by decide)
+  | some pv =>
+    simp only [eprtPortC] at hmin hmax' hsan hport
+    have epv : narrow true pv = pv := by
+      have e : narrow true pv = clampLong pv := by simp [narrow]
+      rw [e] at hmin hmax' ⊢
+      exact clampLong_inner (by omega) (by omega)
+    rw [epv] at hmin hmax' hsan hport
+    have hm : pv.toNat % 65536 = pv.toNat := by apply Nat.mod_eq_of_lt; omega
+    rw [hm] at hport
+    refine ⟨pw, ipTxt, pv, hw, hproto, hfam, ?_, hany, hlen, hmin, hmax', by omega, ?_⟩
+    · cases hc : ipParse ipTxt with
+      | none =>
+        simp only [assignIp, hc, Option.getD_none] at hip
+        subst hip
+        exact absurd hany (by decide)
+      | some a =>
+        simp only [assignIp, hc, Option.getD_some] at hip
+        rw [hip]
+    · intro hs
+      have := hsan hs
+      omega
 
-/-- Strictly written EPRT strings with the '|' delimiter are accepted with exactly their values. -/
-theorem eprt_accepts_strict (ipParse : Bytes → Option Nat) (sanity : Bool) (proto : UInt8) (ipTxt pd : Bytes) (ip : Nat)
+/-- COUNTEREXAMPLES, pinned code (port range): "|1|1.2.3.4|70000|" yields port 4464, "|1|1.2.3.4|65536|" and "|1|1.2.3.4|0|"
+and an empty port field yield port 0, and under ftp_sanitycheck "|1|1.2.3.4|4294968320|" yields port 1024; the fixed variant
+rejects all of them. -/
+theorem legacy_eprt_port_70000_counterexample :
+    parseProtoIpPortCore EprtFlags.legacy strictQuad false 0 [124, 49, 124, 49, 46, 50, 46, 51, 46, 52, 124, 55, 48, 48, 48, 48, 124] = .ok (v4 1 2 3 4) 4464 := by decide +kernel
+theorem legacy_eprt_port_65536_counterexample :
+    parseProtoIpPortCore EprtFlags.legacy strictQuad false 0 [124, 49, 124, 49, 46, 50, 46, 51, 46, 52, 124, 54, 53, 53, 51, 54, 124] = .ok (v4 1 2 3 4) 0 := by decide +kernel
+theorem legacy_eprt_port_zero_counterexample :
+    parseProtoIpPortCore EprtFlags.legacy strictQuad false 0 [124, 49, 124, 49, 46, 50, 46, 51, 46, 52, 124, 48, 124] = .ok (v4 1 2 3 4) 0 := by decide +kernel
+theorem legacy_eprt_port_empty_counterexample :
+    parseProtoIpPortCore EprtFlags.legacy strictQuad false 0 [124, 49, 124, 49, 46, 50, 46, 51, 46, 52, 124, 124] = .ok (v4 1 2 3 4) 0 := by decide +kernel
+theorem legacy_eprt_port_wrap_sanity_counterexample :
+    parseProtoIpPortCore EprtFlags.legacy strictQuad true 0 [124, 49, 124, 49, 46, 50, 46, 51, 46, 52, 124, 52, 50, 57, 52, 57, 54, 56, 51, 50, 48, 124] = .ok (v4 1 2 3 4) 1024 := by decide +kernel
+/-- COUNTEREXAMPLE, pinned code (protocol number wrap): "|4294967297|1.2.3.4|5000|" is taken as protocol 1. -/
+theorem legacy_eprt_proto_wrap_counterexample :
+    parseProtoIpPortCore EprtFlags.legacy strictQuad false 0 [124, 52, 50, 57, 52, 57, 54, 55, 50, 57, 55, 124, 49, 46, 50, 46, 51, 46, 52, 124, 53, 48, 48, 48, 124] = .ok (v4 1 2 3 4) 5000 := by decide +kernel
+theorem fixed_eprt_witnesses_rejected :
+    parseProtoIpPortCore EprtFlags.fixed strictQuad false 0 [124, 49, 124, 49, 46, 50, 46, 51, 46, 52, 124, 55, 48, 48, 48, 48, 124] = .reject ∧
+    parseProtoIpPortCore EprtFlags.fixed strictQuad false 0 [124, 49, 124, 49, 46, 50, 46, 51, 46, 52, 124, 54, 53, 53, 51, 54, 124] = .reject ∧
+    parseProtoIpPortCore EprtFlags.fixed strictQuad false 0 [124, 49, 124, 49, 46, 50, 46, 51, 46, 52, 124, 48, 124] = .reject ∧
+    parseProtoIpPortCore EprtFlags.fixed strictQuad false 0 [124, 49, 124, 49, 46, 50, 46, 51, 46, 52, 124, 124] = .reject ∧
+    parseProtoIpPortCore EprtFlags.fixed strictQuad true 0 [124, 49, 124, 49, 46, 50, 46, 51, 46, 52, 124, 52, 50, 57, 52, 57, 54, 56, 51, 50, 48, 124] = .reject ∧
+    parseProtoIpPortCore EprtFlags.fixed strictQuad false 0 [124, 52, 50, 57, 52, 57, 54, 55, 50, 57, 55, 124, 49, 46, 50, 46, 51, 46, 52, 124, 53, 48, 48, 48, 124] = .reject := by decide +kernel
+/-- COUNTEREXAMPLES (lax syntax, both variants): the final delimiter is compared with '|' instead of the string's delimiter,
+and text after it is ignored. -/
+theorem eprt_mixed_delimiter_counterexample :
+    parseProtoIpPortCore EprtFlags.legacy strictQuad false 0 [35, 49, 35, 49, 46, 50, 46, 51, 46, 52, 35, 53, 48, 48, 48, 124] = .ok (v4 1 2 3 4) 5000 ∧
+    parseProtoIpPortCore EprtFlags.fixed strictQuad false 0 [35, 49, 35, 49, 46, 50, 46, 51, 46, 52, 35, 53, 48, 48, 48, 124] = .ok (v4 1 2 3 4) 5000 := by decide +kernel
+theorem eprt_trailing_garbage_counterexample :
+    parseProtoIpPortCore EprtFlags.legacy strictQuad false 0 [124, 49, 124, 49, 46, 50, 46, 51, 46, 52, 124, 53, 48, 48, 48, 124, 106, 117, 110, 107] = .ok (v4 1 2 3 4) 5000 ∧
+    parseProtoIpPortCore EprtFlags.fixed strictQuad false 0 [124, 49, 124, 49, 46, 50, 46, 51, 46, 52, 124, 53, 48, 48, 48, 124, 106, 117, 110, 107] = .ok (v4 1 2 3 4) 5000 := by decide +kernel
+
+/-- Strictly written EPRT strings with the '|' delimiter are accepted with exactly their values by either variant. -/
+theorem eprt_accepts_strict (fl : EprtFlags) (hfl : fl = EprtFlags.legacy ∨ fl = EprtFlags.fixed)
+    (ipParse : Bytes → Option Nat) (sanity : Bool) (proto : UInt8) (ipTxt pd : Bytes) (ip : Nat)
     (hproto : proto = 49 ∨ proto = 50) (hnb : ∀ c ∈ ipTxt, c ≠ 124) (hlen : ipTxt.length < maxIpStrLen)
     (hip : ipParse ipTxt = some ip) (hany : isAny ip = false) (hfam : (proto = 50) ↔ isV4 ip = false)
     (ipd : IsDec pd) (hp1 : 1 ≤ decNat pd) (hp2 : decNat pd ≤ 65535) (hsan : sanity = true → 1024 ≤ decNat pd) :
-    parseProtoIpPort ipParse sanity 0 (124 :: proto :: 124 :: (ipTxt ++ 124 :: (pd ++ [124]))) = .ok ip (decNat pd) := by
+    parseProtoIpPortCore fl ipParse sanity 0 (124 :: proto :: 124 :: (ipTxt ++ 124 :: (pd ++ [124]))) = .ok ip (decNat pd) := by
   have nd : ∀ r : Bytes, NoDigitAhead (124 :: r) := by
     intro r c r' h
     simp only [List.cons.injEq] at h
@@ -231,37 +380,38 @@ theorem eprt_accepts_strict (ipParse : Bytes → Option Nat) (sanity : Bool) (pr
   have hl1 : lexInt (proto :: 124 :: (ipTxt ++ 124 :: (pd ++ [124]))) = some ((decNat [proto] : Int), 124 :: (ipTxt ++ 124 :: (pd ++ [124]))) :=
     lexInt_dec hpd _ (nd _)
   have hl2 : lexInt (pd ++ [124]) = some ((decNat pd : Int), [124]) := lexInt_dec ipd _ (nd _)
-  have hs1 : strtolInt (proto :: 124 :: (ipTxt ++ 124 :: (pd ++ [124]))) = (cInt (decNat [proto] : Int), 124 :: (ipTxt ++ 124 :: (pd ++ [124]))) := by
-    simp only [strtolInt, hl1]
-  have hs2 : strtolInt (pd ++ [124]) = (cInt (decNat pd : Int), [124]) := by
-    simp only [strtolInt, hl2]
-  have hpp : cInt (decNat pd : Int) = (decNat pd : Int) := by
-    apply cInt_of_fits; unfold FitsInt; omega
+  have hs1 : strtolC fl.long (proto :: 124 :: (ipTxt ++ 124 :: (pd ++ [124]))) = (narrow fl.long (decNat [proto] : Int), 124 :: (ipTxt ++ 124 :: (pd ++ [124]))) := by
+    simp only [strtolC, hl1]
+  have hs2 : strtolC fl.long (pd ++ [124]) = (narrow fl.long (decNat pd : Int), [124]) := by
+    simp only [strtolC, hl2]
+  have hpp : narrow fl.long (decNat pd : Int) = (decNat pd : Int) := by
+    apply narrow_of_fits; unfold FitsInt; omega
   have hsplit := splitAtByte_append (d := 124) ipTxt hnb (pd ++ [124])
   have hlen' : ¬ ipTxt.length ≥ maxIpStrLen := by omega
   have hsn : ¬ (sanity = true ∧ (decNat pd : Int) < 1024) := by
     intro ⟨hs, hlt⟩
     have := hsan hs
     omega
-  have hnn : ¬ ((decNat pd : Int) < 0) := by omega
+  have hbounds : ¬ ((decNat pd : Int) < fl.portMin ∨ (0 ≤ fl.portMax ∧ (decNat pd : Int) > fl.portMax)) := by
+    rcases hfl with h | h <;> subst h <;> simp only [EprtFlags.legacy, EprtFlags.fixed] <;> omega
   rcases hproto with h | h
   · subst h
-    have hv : cInt (decNat [49] : Int) = 1 := by
+    have hv : narrow fl.long (decNat [49] : Int) = 1 := by
       have : (decNat [49] : Int) = 1 := by decide
-      rw [this]; exact cInt_of_fits (by unfold FitsInt; omega)
+      rw [this]; exact narrow_of_fits _ (by unfold FitsInt; omega)
     have hf4 : isV4 ip = true := by
       cases hx : isV4 ip with
       | true => rfl
       | false => exact absurd (hfam.mpr hx) (by decide)
-    simp [parseProtoIpPort, hs1, hv, eprtAddr, hsplit, hlen', eprtPort, assignIp, hip, hany, hf4, hs2, hpp, hsn, hnn,
+    simp [parseProtoIpPortCore, hs1, hv, eprtAddr, hsplit, hlen', eprtPort, assignIp, hip, hany, hf4, hs2, hpp, hsn, hbounds,
       eprtSanityMinPort]
     omega
   · subst h
-    have hv : cInt (decNat [50] : Int) = 2 := by
+    have hv : narrow fl.long (decNat [50] : Int) = 2 := by
       have : (decNat [50] : Int) = 2 := by decide
-      rw [this]; exact cInt_of_fits (by unfold FitsInt; omega)
+      rw [this]; exact narrow_of_fits _ (by unfold FitsInt; omega)
     have hf4 : isV4 ip = false := hfam.mp rfl
-    simp [parseProtoIpPort, hs1, hv, eprtAddr, hsplit, hlen', eprtPort, assignIp, hip, hany, hf4, hs2, hpp, hsn, hnn,
+    simp [parseProtoIpPortCore, hs1, hv, eprtAddr, hsplit, hlen', eprtPort, assignIp, hip, hany, hf4, hs2, hpp, hsn, hbounds,
       eprtSanityMinPort]
     omega
 
@@ -285,6 +435,12 @@ theorem listing_tokens_within_line (buf : Bytes) :
 theorem listing_date_fits_tbuf {triedNlst skipWs : Bool} {buf : Bytes} {p : Parts}
     (h : listParseParts triedNlst skipWs buf = .parts p) : ∀ d, p.date = some d → d.length < tbufSize :=
   listParseParts_date_fits h
+
+/-- what is returned as `name` and `link` is always a contiguous piece of the received line -/
+theorem listing_name_within_line {triedNlst skipWs : Bool} {buf : Bytes} {p : Parts}
+    (h : listParseParts triedNlst skipWs buf = .parts p) :
+    (∀ x, p.name = some x → x <:+: buf) ∧ (∀ y, p.link = some y → y <:+: buf) :=
+  listParseParts_name_in_line h
 
 /-! ## Non-vacuity -/
 
